@@ -183,7 +183,7 @@ func (m *Model) checkEach(s *Sink, rule string, fn *ssa.Function, li *loopInfo, 
 	for b := range li.body {
 		for _, in := range b.Instrs {
 			c, ok := in.(*ssa.Call)
-			if !ok || c.Call.StaticCallee() == nil || c.Call.StaticCallee().Name() != "Set" || len(c.Call.Args) != 3 {
+			if !ok || c.Call.StaticCallee() == nil || canonFnName(c.Call.StaticCallee()) != "Set" || len(c.Call.Args) != 3 {
 				continue
 			}
 			if strings.HasSuffix(fieldPathOf(c.Call.Args[1]), ".Var.Value") {
@@ -541,7 +541,7 @@ func (m *Model) RunScope(s *Sink, rule string) {
 					target = x.Map
 				case *ssa.Store:
 					if fa, ok := x.Addr.(*ssa.FieldAddr); ok && strings.HasSuffix(derefTypeString(fa.X.Type()), "object.Env") && fieldName(fa.X.Type(), fa.Field) == "store" {
-						if !allowed[fn.Name()] {
+						if !allowed[canonFnName(fn)] {
 							nw++
 							s.Violation(rule, fnKey(fn)+"|replaces an Env store", m.InstrPos(in), "%s replaces the variable store of an environment", fnKey(fn))
 						}
@@ -554,7 +554,7 @@ func (m *Model) RunScope(s *Sink, rule string) {
 				if !strings.HasSuffix(p, ".store") || !strings.Contains(derefOwnerOfPath(target), "object.Env") {
 					continue
 				}
-				if !allowed[fn.Name()] || shortPkg(fnPkgPath(fn)) != "object" {
+				if !allowed[canonFnName(fn)] || shortPkg(fnPkgPath(fn)) != "object" {
 					nw++
 					s.Violation(rule, fnKey(fn)+"|writes an Env store", m.InstrPos(in), "%s writes variables into an environment without going through Set (reserved name and type checks are bypassed)", fnKey(fn))
 				} else if p != ".store" {
